@@ -108,6 +108,33 @@ def memo_on_type_dispatch(repo: Repo, modname: str) -> List[Tuple[str, ast.AST]]
     return out
 
 
+def check_decoder(repo: Repo, run: Run, rule: str) -> None:
+    """CELJSONDecoder.decode converts the *whole* text: the raw value comes from the json module's complete-document
+    decoder (which rejects trailing data).  `raw_decode` / `scan_once` parse a prefix and ignore the rest: `{"a":1} }`
+    or two documents on one line would be accepted.  (Shared with C20: a malformed input line is an error.)"""
+    ad = repo.mod("adapter")
+    dec = class_methods(ad.cls("CELJSONDecoder")).get("decode")
+    if dec is None:
+        run.ob(rule, "CELJSONDecoder.decode", True, "decode() is inherited from json.JSONDecoder (whole document); object hooks do the conversion", str(ad.path))
+        return
+    txt = ast.unparse(dec)
+    prefix = [c for c in ast.walk(dec) if isinstance(c, ast.Call) and isinstance(c.func, ast.Attribute) and c.func.attr in ("raw_decode", "scan_once")]
+    whole = [c for c in ast.walk(dec) if isinstance(c, ast.Call) and ((isinstance(c.func, ast.Attribute) and c.func.attr == "decode" and "super()" in ast.unparse(c.func.value))
+                                                                    or dotted(c.func) in ("json.loads", "json.JSONDecoder.decode"))]
+    if prefix:
+        checked_end = any(isinstance(c, ast.Compare) and "len(" in ast.unparse(c) for c in ast.walk(dec))
+        if checked_end:
+            run.inconclusive(rule, "CELJSONDecoder.decode", "decodes a prefix and compares the end position; whether all trailing text is rejected was not decided")
+        else:
+            run.ob(rule, "CELJSONDecoder.decode", False,
+                   f"decode() takes the value from `{ast.unparse(prefix[0])[:60]}`, which parses one JSON value from the start of the text and ignores what follows: a line with trailing data "
+                   "(`{\"a\": 1} }`, two documents on one line) is accepted instead of being a JSON error", ad.loc(prefix[0]))
+    elif whole and "json_to_cel(" in txt:
+        run.ob(rule, "CELJSONDecoder.decode", True, "decode() = json_to_cel(<whole-document json decode>)", ad.loc(dec))
+    else:
+        run.inconclusive(rule, "CELJSONDecoder.decode", "how decode() obtains the raw JSON value was not recognised")
+
+
 def check(repo: Repo, run: Run) -> None:
     run.explanation = (
         "J1: in json_to_cel and CELJSONEncoder.to_python/default no isinstance test is shadowed by an earlier test for a "
@@ -128,6 +155,10 @@ def check(repo: Repo, run: Run) -> None:
     # J6: navigation `.field` / ["key"] reaches the stored element whatever its value: presence is decided by
     # membership, so a JSON null / false / 0 / "" member is found (instances shared with C09.K5)
     run.borrow(repo, "C09", "C15.J6", lambda o: o["rule"] == "C09.K5", 2)
+    # J7: timestamps and durations are encoded as str(value): the text forms are C10.R8 (offset of RFC 3339 text) and
+    # C11.D2 (whole seconds followed by `s`) -- shared instances
+    run.borrow(repo, "C11", "C15.J7", lambda o: o["rule"] == "C11.D2" and "__str__" in o["key"], 1)
+    run.borrow(repo, "C10", "C15.J7", lambda o: o["rule"] == "C10.R8", 1)
     run.floor("C15.J5", check_absent_vs_falsy(repo, run, "C15.J5", ("BoolType", "IntType", "DoubleType", "StringType")), 4)
     # J1 -----------------------------------------------------------------
     targets = [("json_to_cel", j2c, param)]
@@ -333,8 +364,7 @@ def check(repo: Repo, run: Run) -> None:
         run.ob("C15.J3", f"default|{cname}", not bad,
                f"default() encodes {cname} " + (("as str(value)" if want == "str" else "as base64 text") if not bad else f"as `{bad[0]}`; expected " + ("str(value)" if want == "str" else "base64.b64encode(value).decode(..)")), ad.loc(df))
     dec = class_methods(ad.cls("CELJSONDecoder")).get("decode")
-    run.shape("C15.J3", "CELJSONDecoder.decode", dec is not None and "json_to_cel(" in ast.unparse(dec) and "super().decode(" in ast.unparse(dec),
-           "decode() = json_to_cel(json decode)", ad.loc(dec) if dec else str(ad.path))
+    check_decoder(repo, run, "C15.J3")
     # J4 -----------------------------------------------------------------
     bad = memo_on_type_dispatch(repo, "adapter")
     for q, fn in bad:
